@@ -153,6 +153,22 @@ def interaction_texts():
         for mid in ("<!--c-->", "<b/>", "<?p?>", "&amp;", "<![CDATA[x]]>", "&#65;", "<![CDATA[]]>", "<b>]]</b>", "&gt;"):
             for right in (">", ">c", "]>", "]]", "&gt;", ""):
                 out.append("<r>%s%s%s</r>" % (left, mid, right))
+    # (3) literals of the DTD holding character references to the characters that cannot stand there as themselves (`&`, `%`, `<`,
+    #     the quotes): an entity value, a default, a #FIXED value - a printer that writes the character instead of the reference
+    #     writes something else or nothing parseable (round-9 seed C04-N decoded them when the declaration was read)
+    for v in ("&#38;#60;", "R&#38;D", "100&#37;", "it's &#34;so", 'say "x" &#39;y', "&#60;b/&#62;", "&#x26;amp;", "a&#37;p;b", "&#38;#38;"):
+        q = '"' if '"' not in v else "'"
+        out.append("<!DOCTYPE r [<!ENTITY e %s%s%s>]><r>&e;</r>" % (q, v, q))
+        out.append("<!DOCTYPE r [<!ENTITY e %s%s%s>]><r a='&e;'/>" % (q, v, q))
+        if "%" not in v and "&#60;" not in v and "&#38;#60;" not in v:
+            out.append("<!DOCTYPE r [<!ATTLIST r a CDATA %s%s%s b CDATA #FIXED %s[%s]%s>]><r/>" % (q, v, q, q, v, q))
+    # (4) white space in front of the first item of a document without an XML declaration, in particular in front of a processing
+    #     instruction whose target begins with `xml` (round-9 seeds C01-M / C04-M: a reader that commits to the XML declaration once
+    #     it has read `<?xml`)
+    for lead in ("", " ", "\n", " \t\n"):
+        for first in ("<?xml-stylesheet href='a.xsl'?>", "<?xmlfoo?>", "<?xml-model x?>", "<?xm l?>", "<!--c-->", "<?XML-S x?>"):
+            out.append("%s%s<doc>t</doc>" % (lead, first))
+            out.append("%s%s\n<!DOCTYPE doc [<!ELEMENT doc ANY>]><doc>t</doc>" % (lead, first))
     return out
 
 
@@ -204,6 +220,9 @@ def reference_stream(rng, n_docs, n_parts):
         more += g.mutants(t, 1)
     for t in texts[n_docs:]:
         more += g.punct_deletions(t, 8)
+    # ... and the hand-built neighbourhoods (declaration orders, `]]>` across items, DTD literals, what may stand in front of the
+    # first item): the reviewed grammar decides which of them are documents
+    texts += interaction_texts()
     texts = [t for t in texts + more if "\x00" not in t and t]
     impl = lib.run_lines(lib.build_harness(), [lib.req("accept", t) for t in texts], timeout=900, per_line_resume=True)
     ref = lib.run_lines(lib.model_driver(), [lib.req("accept", "ref", t) for t in texts], timeout=900, per_line_resume=True)
